@@ -134,6 +134,21 @@ func formatValue(builder *OutputBuilder, value any) error {
 	return nil
 }
 
+// formatIdentifier writes an identifier. Generated identifiers and bare Cypher symbols are plain names and are
+// written as they are. A Cypher symbol that was back-tick escaped in the query text reaches the SQL AST with its
+// back-ticks (the frontend stores the raw token); it may contain any character, so it is unescaped and written as a
+// quoted identifier with embedded double quotes doubled.
+func formatIdentifier(identifier pgsql.Identifier) string {
+	name := identifier.String()
+
+	if len(name) < 2 || name[0] != '`' || name[len(name)-1] != '`' {
+		return name
+	}
+
+	name = strings.ReplaceAll(name[1:len(name)-1], "``", "`")
+	return "\"" + strings.ReplaceAll(name, "\"", "\"\"") + "\""
+}
+
 func formatLiteral(builder *OutputBuilder, literal pgsql.Literal) error {
 	if literal.Null {
 		builder.Write("null")
@@ -277,7 +292,7 @@ func formatNode(builder *OutputBuilder, rootExpr pgsql.SyntaxNode) error {
 			builder.Write(typedNextExpr.String())
 
 		case pgsql.Identifier:
-			builder.Write(typedNextExpr)
+			builder.Write(formatIdentifier(typedNextExpr))
 
 		case pgsql.CompoundIdentifier:
 			for idx := len(typedNextExpr) - 1; idx >= 0; idx-- {
